@@ -47,11 +47,44 @@ type mvar struct {
 }
 
 type mgen struct {
-	t     *rt.Tape
-	vars  []mvar
-	n     int
-	lines []string
-	ind   int
+	t       *rt.Tape
+	vars    []mvar
+	n       int
+	lines   []string
+	ind     int
+	decls   []string // type declarations
+	structW []int    // total widths of the structs in use
+}
+
+// newStruct declares a struct type and returns its name, its fields and its total width.
+func (g *mgen) newStruct() (string, []mvar, int) {
+	name := fmt.Sprintf("S%d", len(g.decls))
+	nf := 2 + g.ch(2)
+	var fields []mvar
+	var sb strings.Builder
+	fmt.Fprintf(&sb, "type %s struct {\n", name)
+	total := 0
+	for i := 0; i < nf; i++ {
+		w := []int{8, 16, 32, 4, 16, 32}[g.ch(6)]
+		if total+w > 64 {
+			w = 8
+		}
+		total += w
+		f := mvar{name: fmt.Sprintf("f%d", i), typ: mtype{kind: 0, bits: w}}
+		fields = append(fields, f)
+		fmt.Fprintf(&sb, "\t%s %s\n", f.name, f.typ)
+	}
+	sb.WriteString("}\n")
+	g.decls = append(g.decls, sb.String())
+	g.structW = append(g.structW, total)
+	return name, fields, total
+}
+
+// useStruct registers the fields of struct value v as variables.
+func (g *mgen) useStruct(v string, fields []mvar, ro bool) {
+	for _, f := range fields {
+		g.vars = append(g.vars, mvar{name: v + "." + f.name, typ: f.typ, ro: ro})
+	}
 }
 
 var widths = []int{8, 16, 32, 64, 1, 2, 3, 7, 9, 15, 17, 31, 33, 12, 24}
@@ -365,7 +398,11 @@ func (g *mgen) program() (string, [][]int) {
 	var params []string
 	probe := [][]int{{8}, {8}}
 	for i, name := range []string{"a", "b"} {
-		switch g.ch(6) {
+		switch g.ch(7) {
+		case 6: // struct argument: field updates alias the aggregate in streaming mode
+			sn, fields, _ := g.newStruct()
+			g.useStruct(name, fields, false)
+			params = append(params, fmt.Sprintf("%s %s", name, sn))
 		case 0: // array argument
 			ty := mtype{kind: 3, bits: []int{8, 16, 32}[g.ch(3)], count: 2 + g.ch(6)}
 			g.vars = append(g.vars, mvar{name: name, typ: ty, ro: g.ch(2) == 0})
@@ -386,9 +423,37 @@ func (g *mgen) program() (string, [][]int) {
 		}
 	}
 	g.ind = 1
+	if g.ch(4) == 0 { // local struct
+		sn, fields, _ := g.newStruct()
+		v := g.fresh("st")
+		g.emit("var %s %s", v, sn)
+		g.useStruct(v, fields, false)
+	}
 	n := 2 + g.ch(12)
 	for i := 0; i < n; i++ {
 		g.stmt(2)
+		if len(g.structW) > 0 && g.ch(3) == 0 {
+			// struct field update followed by a fresh value exactly as wide as
+			// the whole struct (recycled wire ids of that width are handed out again)
+			var fl []mvar
+			for _, v := range g.vars {
+				if strings.Contains(v.name, ".") && !v.ro {
+					fl = append(fl, v)
+				}
+			}
+			if len(fl) > 0 {
+				f := fl[g.ch(len(fl))]
+				g.emit("%s = %s", f.name, g.expr(f.typ, 1))
+				w := g.structW[g.ch(len(g.structW))]
+				ty := mtype{kind: 0, bits: w}
+				name := g.fresh("w")
+				g.emit("%s := %s", name, g.expr(ty, 1))
+				g.vars = append(g.vars, mvar{name: name, typ: ty})
+				if g.ch(2) == 0 {
+					g.emit("%s = (%s * %s)", name, name, g.expr(ty, 0))
+				}
+			}
+		}
 	}
 	nret := 1 + g.ch(3)
 	var rtypes, rexprs []string
@@ -410,7 +475,7 @@ func (g *mgen) program() (string, [][]int) {
 	if nret > 1 {
 		ret = "(" + strings.Join(rtypes, ", ") + ")"
 	}
-	src := "package main\n\nfunc main(" + strings.Join(params, ", ") + ") " + ret + " {\n" +
+	src := "package main\n\n" + strings.Join(g.decls, "\n") + "\nfunc main(" + strings.Join(params, ", ") + ") " + ret + " {\n" +
 		strings.Join(g.lines, "\n") + "\n\treturn " + strings.Join(rexprs, ", ") + "\n}\n"
 	return src, probe
 }
